@@ -104,3 +104,46 @@ Example a_nested_fold :
   optimize (WL [VOp OAdd; VSym "x" None; WL [VOp OIf; WL [VOp OAnd; VInt 1; VInt 2]; WL [VOp OMul; VInt 3; VInt 4]; VSym "y" None]])
   = WL [VOp OAdd; VSym "x" None; VInt 12].
 Proof. reflexivity. Qed.
+
+(** * T-opt with binders and effects (proofs/OptLet.v): the fragment extended by while, print, (set (x e) ...) and
+    (let ([x init] ...) body ...), nested arbitrarily.  If the unoptimised program completes, the optimised one
+    completes with the same value and the same final state -- same output, same assignments, same frames. *)
+From WalModel.proofs Require OptLet.
+Theorem optimize_preserves_programs_with_binders_and_effects : forall lf f e st v st',
+  OptLet.rox e = true -> optimize_modelled e = true ->
+  eval lf f e st = Ok v st' -> eval lf (S f) (optimize e) st = Ok v st'.
+Proof. exact OptLet.optimize_preserves_x. Qed.
+Print Assumptions optimize_preserves_programs_with_binders_and_effects.
+
+Theorem the_extended_fragment_is : forall e, OptLet.rox e =
+  match e with
+  | VInt _ | VBool _ | VStr _ | VSym _ _ => true
+  | VList true (VOp OLet :: VList true bs :: body) =>
+      forallb (fun b => match b with VList true [VSym _ _; e] => OptLet.rox e | _ => false end) bs && forallb OptLet.rox body
+  | VList true (VOp OSet :: bs) =>
+      forallb (fun b => match b with VList true [VSym _ _; e] => OptLet.rox e | _ => false end) bs
+  | VList _ (VOp o :: args) =>
+      (OptRo.ron_op o || match o with OWhile | OPrint => true | _ => false end) && forallb OptLet.rox args
+  | _ => false
+  end.
+Proof. intros e. destruct e; reflexivity. Qed.
+Print Assumptions the_extended_fragment_is.
+
+Theorem the_pass_stays_in_the_extended_fragment : forall e e', OptLet.rox e = true -> optimize_opt e = Some e' -> OptLet.rox e' = true.
+Proof. exact OptLet.optimize_rox. Qed.
+Print Assumptions the_pass_stays_in_the_extended_fragment.
+
+(** a let with a folded initialiser, a while whose bound is a product of literals, a set with a folded if, a print of concatenated strings *)
+Example a_program_with_binders : 
+  let p := WL [VOp OLet; WL [WL [VSym "n" None; WL [VOp OAdd; VInt 1; VInt 2]]];
+               WL [VOp OWhile; WL [VOp OLt; VSym "n" None; WL [VOp OMul; VInt 2; VInt 5]];
+                   WL [VOp OSet; WL [VSym "n" None; WL [VOp OAdd; VSym "n" None; WL [VOp OIf; VInt 1; VInt 2; VInt 3]]]];
+                   WL [VOp OPrint; WL [VOp OAdd; VStr "a"; VStr "b"]; VSym "n" None]];
+               VSym "n" None] in
+  OptLet.rox p = true /\
+  optimize p = WL [VOp OLet; WL [WL [VSym "n" None; VInt 3]];
+                   WL [VOp OWhile; WL [VOp OLt; VSym "n" None; VInt 10];
+                       WL [VOp OSet; WL [VSym "n" None; WL [VOp OAdd; VSym "n" None; VInt 2]]];
+                       WL [VOp OPrint; VStr "ab"; VSym "n" None]];
+                   VSym "n" None].
+Proof. split; reflexivity. Qed.
